@@ -2,12 +2,20 @@
 
 use vcore::Tier;
 
+mod c31;
+mod c32;
+mod c33;
+mod c03;
+mod btree_engine;
+mod c28;
+mod c29;
 mod c05;
 mod c26;
 mod c27;
 mod c30;
 mod sqlprobe;
 mod hist;
+mod histchecks;
 mod histrun;
 mod refdb;
 mod world;
@@ -51,6 +59,15 @@ fn main() {
         _ => Tier::Quick,
     };
     let code = match prop {
+        "C04" => histchecks::c04(tier, replay.clone()),
+        "C06" => histchecks::c06(tier, replay.clone()),
+        "C07" => histchecks::c07(tier, replay.clone()),
+        "C31" => c31::main(tier, replay.clone()),
+        "C32" => c32::main(tier, replay.clone()),
+        "C33" => c33::main(tier, replay.clone()),
+        "C03" => c03::main(tier, replay.clone()),
+        "C28" => c28::main(tier, replay.clone()),
+        "C29" => c29::main(tier, replay.clone()),
         "C05" => c05::main(tier, replay.clone()),
         "C26" => c26::main(tier, replay.clone()),
         "C27" => c27::main(tier, replay.clone()),
